@@ -9,12 +9,24 @@ pub mod c01;
 pub mod c02;
 pub mod c03;
 pub mod c04;
+pub mod c05;
+pub mod c06;
+pub mod c07;
+pub mod c08;
+pub mod c09;
+pub mod c10;
+pub mod c11;
 pub mod c12;
+pub mod c13;
 pub mod c14;
 pub mod c15;
 pub mod c16;
+pub mod c17;
+pub mod c18;
+pub mod c19;
+pub mod c20;
 
-pub const IDS: [&str; 8] = ["C01", "C02", "C03", "C04", "C12", "C14", "C15", "C16"];
+pub const IDS: [&str; 20] = ["C01", "C02", "C03", "C04", "C05", "C06", "C07", "C08", "C09", "C10", "C11", "C12", "C13", "C14", "C15", "C16", "C17", "C18", "C19", "C20"];
 
 pub fn canonical_id(s: &str) -> Option<&'static str> {
     IDS.iter().copied().find(|i| i.eq_ignore_ascii_case(s))
@@ -42,10 +54,22 @@ pub fn run(ctx: &Ctx) -> Report {
         "C02" => c02::run(ctx),
         "C03" => c03::run(ctx),
         "C04" => c04::run(ctx),
+        "C05" => c05::run(ctx),
+        "C06" => c06::run(ctx),
+        "C07" => c07::run(ctx),
+        "C08" => c08::run(ctx),
+        "C09" => c09::run(ctx),
+        "C10" => c10::run(ctx),
+        "C11" => c11::run(ctx),
         "C12" => c12::run(ctx),
+        "C13" => c13::run(ctx),
         "C14" => c14::run(ctx),
         "C15" => c15::run(ctx),
         "C16" => c16::run(ctx),
+        "C17" => c17::run(ctx),
+        "C18" => c18::run(ctx),
+        "C19" => c19::run(ctx),
+        "C20" => c20::run(ctx),
         _ => unreachable!(),
     }
 }
@@ -56,10 +80,22 @@ pub fn replay(id: &str, m: &ReplayMap) -> CaseResult {
         "C02" => c02::replay(m),
         "C03" => c03::replay(m),
         "C04" => c04::replay(m),
+        "C05" => c05::replay(m),
+        "C06" => c06::replay(m),
+        "C07" => c07::replay(m),
+        "C08" => c08::replay(m),
+        "C09" => c09::replay(m),
+        "C10" => c10::replay(m),
+        "C11" => c11::replay(m),
         "C12" => c12::replay(m),
+        "C13" => c13::replay(m),
         "C14" => c14::replay(m),
         "C15" => c15::replay(m),
         "C16" => c16::replay(m),
+        "C17" => c17::replay(m),
+        "C18" => c18::replay(m),
+        "C19" => c19::replay(m),
+        "C20" => c20::replay(m),
         _ => unreachable!(),
     }
 }
